@@ -61,6 +61,14 @@ def element_factories(pmax=5):
     out.append(('ElementComposite(TriRT1,TriP0)', lambda: E.ElementComposite(E.ElementTriRT1(), E.ElementTriP0())))
     out.append(('ElementComposite(TetN1,TetP1)', lambda: E.ElementComposite(E.ElementTetN1(), E.ElementTetP1())))
     out.append(('ElementComposite(Quad2,Quad1,Quad0)', lambda: E.ElementComposite(E.ElementQuad2(), E.ElementQuad1(), E.ElementQuad0())))
+    # API forms: Element.__mul__ (composite by *), Element.__call__ (instance called like a class), Element.condensed()
+    out.append(('ElementTriP2*ElementTriP1', lambda: E.ElementTriP2() * E.ElementTriP1()))
+    out.append(('(ElementTriRT1*ElementTriP0)*ElementTriP1', lambda: (E.ElementTriRT1() * E.ElementTriP0()) * E.ElementTriP1()))
+    out.append(('ElementTetP1()()', lambda: E.ElementTetP1()()))
+    for base in ('ElementTriP2B', 'ElementTriRT2', 'ElementQuad2', 'ElementTetMini', 'ElementTriN2'):
+        b = getattr(E, base)
+        out.append((f'{base}.condensed()[0]', (lambda b=b: b().condensed()[0])))
+        out.append((f'{base}.condensed()[1]', (lambda b=b: b().condensed()[1])))
     return out, wrappers
 
 
@@ -348,3 +356,65 @@ def check_global_reuse(label, factory, meshes, report, rng, tol=1e-6):
         if nt >= 2:
             step(m, np.sort(rng.choice(nt, size=nt - 1, replace=False))[::-1].copy(), f':reused-object:subset{k}')
     return n, worst
+
+
+def check_api_forms(report, rng):
+    """thin public wrappers around gbasis / lbasis (API coverage): they must deliver what the core path delivers.
+    Returns the list of forms exercised."""
+    import skfem
+    import skfem.element as E
+    from skfem.assembly import CellBasis
+    done = []
+
+    def same(key, what, a, b, data, tol=1e-12):
+        a, b = np.asarray(a, dtype=float), np.asarray(b, dtype=float)
+        if a.shape != b.shape or not np.allclose(a, b, rtol=0, atol=tol * max(1.0, float(np.max(np.abs(b))) if b.size else 1.0)):
+            report(key, what + f' (shapes {a.shape} / {b.shape}, max difference '
+                   f'{float(np.max(np.abs(a - b))) if a.shape == b.shape and a.size else "n/a"})', data)
+    # ElementDG.lbasis forwards to the wrapped element
+    X = lattice('RefTri', 3, rng)
+    for i in range(6):
+        a, b = E.ElementDG(E.ElementTriP2()).lbasis(X, i), E.ElementTriP2().lbasis(X, i)
+        same('api=ElementDG.lbasis', f'ElementDG(ElementTriP2).lbasis differs from ElementTriP2.lbasis for i={i}', a[0], b[0], {'i': i})
+        same('api=ElementDG.lbasis', f'ElementDG(ElementTriP2).lbasis gradient differs for i={i}', a[1], b[1], {'i': i})
+    done.append('ElementDG.lbasis')
+    # Element.orient default, ElementComposite.dim, DiscreteField.value
+    m = random_mesh('RefTri', rng, 'affine')
+    mp = m._mapping()
+    o1, o2 = E.ElementTriP2().orient(mp, 3), E.ElementTriP2().orient(mp, 3, tind=np.array([1]))
+    if not (np.all(np.asarray(o1) == 1) and np.all(np.asarray(o2) == 1) and len(np.atleast_1d(o1)) == m.t.shape[1]):
+        report('api=Element.orient', 'default Element.orient is not all ones', {'o1': np.asarray(o1).tolist(), 'o2': np.asarray(o2).tolist()})
+    if (E.ElementTriP2() * E.ElementTriP1()).dim != 2:
+        report('api=ElementComposite.dim', 'ElementComposite.dim of two triangle elements is not 2', {})
+    done += ['Element.orient (default)', 'ElementComposite.dim']
+    # CellBasis.with_element / with_elements / probes / interpolator / refinterp against the core gbasis path
+    for mname, e1, e2 in (('RefTri', E.ElementTriP2, E.ElementTriP3), ('RefQuad', E.ElementQuad2, E.ElementQuad1),
+                          ('RefTet', E.ElementTetP2, E.ElementTetP1)):
+        m = random_mesh(mname, rng, 'affine' if mname != 'RefQuad' else 'multilinear')
+        b1 = CellBasis(m, e1(), intorder=3)
+        b2 = b1.with_element(e2())
+        b2ref = CellBasis(m, e2(), intorder=3)
+        for i in range(b2.Nbfun):
+            same('api=CellBasis.with_element', f'with_element({e2.__name__}) value of basis function {i} differs from a new CellBasis',
+                 b2.basis[i][0], b2ref.basis[i][0], {'mesh': mname, 'i': i})
+            same('api=CellBasis.with_element', f'with_element({e2.__name__}) grad of basis function {i} differs from a new CellBasis',
+                 b2.basis[i][0].grad, b2ref.basis[i][0].grad, {'mesh': mname, 'i': i})
+        sub = np.array([m.t.shape[1] - 1])
+        b3 = b1.with_elements(sub)
+        b3ref = CellBasis(m, e1(), intorder=3, elements=sub)
+        for i in range(b3.Nbfun):
+            same('api=CellBasis.with_elements', f'with_elements({sub.tolist()}) grad of basis function {i} differs from CellBasis(elements=...)',
+                 b3.basis[i][0].grad, b3ref.basis[i][0].grad, {'mesh': mname, 'i': i})
+        # probes / interpolator at points inside cell 0: against the global basis evaluated directly
+        Xl = lattice(mname, 3, rng)
+        xg = m._mapping().F(Xl, tind=np.array([0]))[:, 0, :]
+        coef = rng.uniform(-1, 1, b1.N)
+        direct = np.zeros(Xl.shape[1])
+        for i in range(b1.Nbfun):
+            direct += coef[b1.element_dofs[i, 0]] * np.asarray(e1().gbasis(m._mapping(), Xl, i, tind=np.array([0]))[0])[0]
+        same('api=CellBasis.probes', f'{e1.__name__}: probes(x) @ coefficients differs from the direct evaluation in cell 0',
+             b1.probes(xg) @ coef, direct, {'mesh': mname, 'p': m.p.tolist(), 't': m.t.tolist(), 'x': xg.tolist()}, tol=1e-9)
+        same('api=CellBasis.interpolator', f'{e1.__name__}: interpolator(coefficients)(x) differs from the direct evaluation in cell 0',
+             b1.interpolator(coef)(xg), direct, {'mesh': mname, 'p': m.p.tolist(), 't': m.t.tolist(), 'x': xg.tolist()}, tol=1e-9)
+    done += ['CellBasis.with_element', 'CellBasis.with_elements', 'CellBasis.probes', 'CellBasis.interpolator']
+    return done
